@@ -66,6 +66,8 @@ def rule_ownership(ctx: Ctx) -> None:
         if p != "self":
             continue
         ok = path in (".object_results", ".frame_ground_truth") or path.startswith(allowed_prefix)
+        if path.startswith((".pass_fail_result.critical_object_filter_config", ".pass_fail_result.frame_pass_fail_config", ".pass_fail_result.transforms")):
+            ok = False  # configuration objects handed in by the caller
         ctx.check(ok, "C13-ownership", "PerceptionFrameResult.evaluate_frame", f"self{path}",
                   f"evaluate_frame writes into `self{path}` ({m.how}, line {m.line}{' via ' + m.via.split('.', 1)[-1] if m.via else ''}): that object was handed in by the caller "
                   f"(the dataset's FrameGroundTruth / the result list) and must not be modified – narrow a copy instead", fi=fi,
@@ -170,22 +172,32 @@ def rule_pooling(ctx: Ctx) -> None:
     lp = lps[0]
     fv = U(lp.node.target)
     asg = {e.recv: S(e.value) for e in p0.effects if e.kind == "assign"}
-    ctx.check(asg.get("all_frame_results") == "{label:[[]]forlabelinself.target_labels}" and asg.get("all_num_gt") == "{label:0forlabelinself.target_labels}", "C13-pooling", "get_scene_result", "init",
-              f"pools start as {asg.get('all_frame_results')} / {asg.get('all_num_gt')}; expected one (leading empty 'previous') frame list and a zero count per target label", fi=fi)
+    inits = sorted(asg.values())
+    ctx.check("{label:[[]]forlabelinself.target_labels}" in inits and "{label:0forlabelinself.target_labels}" in inits, "C13-pooling", "get_scene_result", "init",
+              f"pools start as {inits}; expected one (leading empty 'previous') frame list and a zero count per target label", fi=fi)
     for bp in lp.body:
         inner = [e for e in bp.effects if e.kind == "loop"]
         ctx.require(len(inner) == 1 and S(inner[0].text) == "self.target_labels", "get_scene_result: inner loop over the target labels not recognised")
         lv = U(inner[0].node.target)
         for ib in inner[0].body:
             ap = [(S(a.recv), S(a.args[0])) for a in appends(ib)]
-            want_ap = [(f"all_frame_results[{lv}]", f"divide_objects({fv}.object_results,self.target_labels)[{lv}]")]
+            want_ap = [(ap[0][0] if ap and ap[0][0].endswith(f"[{lv}]") else f"<pool>[{lv}]", f"divide_objects({fv}.object_results,self.target_labels)[{lv}]")]
             ctx.check(ap == want_ap, "C13-pooling", "get_scene_result", "pool-results", f"per frame and label the function appends {ap}; expected {want_ap}", fi=fi, expected=str(want_ap), found=str(ap),
                       sample={"append": want_ap[0][1]})
             aug = [(S(strip_v(e.recv)), e.name, S(e.value)) for e in ib.effects if e.kind == "aug"]
-            want_aug = [(f"all_num_gt[{lv}]", "Add", f"divide_objects_to_num({fv}.frame_ground_truth.objects,self.target_labels)[{lv}]")]
+            want_aug = [(aug[0][0] if aug and aug[0][0].endswith(f"[{lv}]") else f"<count>[{lv}]", "Add", f"divide_objects_to_num({fv}.frame_ground_truth.objects,self.target_labels)[{lv}]")]
             ctx.check(aug == want_aug, "C13-pooling", "get_scene_result", "pool-gt", f"per frame and label the ground-truth count is updated by {aug}; expected {want_aug}", fi=fi, expected=str(want_aug), found=str(aug))
         uf = [(a.recv, S(a.args[0])) for a in appends(bp) if a.recv == "used_frame"]
         ctx.check(uf == [("used_frame", f"int({fv}.frame_name)")], "C13-pooling", "get_scene_result", "used-frame", f"used_frame receives {uf}", fi=fi)
+    # names of the two pools, from the loop body (not from the source spelling)
+    res_pool = gt_pool = None
+    for bp in lp.body:
+        for e in bp.all_effects():
+            if e.kind == "call" and e.name == "append" and "divide_objects(" in "".join(S(a) for a in e.args):
+                res_pool = S(e.recv).split("[")[0]
+            if e.kind == "aug" and "divide_objects_to_num(" in S(e.value):
+                gt_pool = S(strip_v(e.recv)).split("[")[0]
+    ctx.require(res_pool is not None and gt_pool is not None, "get_scene_result: pooled result / ground-truth containers not recognised")
     n = 0
     for p in paths:
         mk = [e for e in p.effects if e.kind == "call" and e.name == "MetricsScore"]
@@ -197,7 +209,7 @@ def rule_pooling(ctx: Ctx) -> None:
             calls = [e for e in p.effects if e.kind == "call" and e.name == name]
             if has is False:
                 n += 1
-                ok = len(calls) == 1 and [strip_v(S(a)) for a in calls[0].args] == ["all_frame_results", "all_num_gt"]
+                ok = len(calls) == 1 and [strip_v(S(a)) for a in calls[0].args] == [res_pool, gt_pool]
                 ctx.check(ok, "C13-pooling", "get_scene_result", f"{name}", f"{name} is called with {[strip_v(S(a)) for c in calls for a in c.args]}; expected once with the pooled results and counts", fi=fi)
             elif has:
                 ctx.check(not calls, "C13-pooling", "get_scene_result", f"{name}:off", f"{name} is called although its config is None", fi=fi)
